@@ -434,9 +434,18 @@ void Network::broker_send(Conn& c, const std::string& bytes) {
         ns_t at = std::max(c.b2c_next_at, w.now + latency(c));
         c.b2c_next_at = at;
         uint64_t ep = c.epoch;
+        if (knobs.coalesce_b2c && c.b2c_tail && c.b2c_tail_at == at && c.b2c_tail_epoch == ep) {
+            c.b2c_tail->append(bytes, pos, n);      // rides in the segment that is already on its way for this instant
+            pos += n;
+            continue;
+        }
         ++c.b2c_inflight;
-        w.schedule(at, "b2c_seg", [this, id, d = bytes.substr(pos, n), ep]() mutable {
-            arrive_b2c(*conns[id], std::move(d), ep);
+        auto seg = std::make_shared<std::string>(bytes.substr(pos, n));
+        c.b2c_tail = seg; c.b2c_tail_at = at; c.b2c_tail_epoch = ep;
+        w.schedule(at, "b2c_seg", [this, id, seg, ep]() mutable {
+            Conn& cc = *conns[id];
+            if (cc.b2c_tail == seg) cc.b2c_tail.reset();
+            arrive_b2c(cc, std::move(*seg), ep);
         });
         pos += n;
     }
